@@ -545,10 +545,8 @@ UNSUPPORTED_REFACTORS = {
     # -- small everyday refactors (small-*)
     "small-agents-1": "momentum (M, p) computed by `last_price.map_or((0, 0), |p| ..)`: the recurrence rule reads the `match` on the last price",
     "small-agents-4": "random-agent draws through a tuple-returning sampler (same class as feat-agents-3)",
-    "small-book-3": "the loader iterates the saved orders by index (`for i in 0..state.orders.len()`): `state.orders[i]` is an index site the load-abort-free rule does not discharge from the range bound",
     "small-book-5": "`!matches!(status, Status::New)` as the place_order guard and `vol != 0 && best <= price` as the loop guard: the status-guard anchor reads a comparison, not a `matches!` discriminant test",
     "small-env-1": "the instruction is queued inside `create_order(..).map(|id| { push; id })`: the submission rules read the push in the function body, not in a combinator closure",
-    "small-market-3": "`order_books.each_ref().map(|book| ..)` instead of `array::from_fn(|i| ..)` for the all-asset level-2 query",
     "small-market-5": "`From<Side> for bool` as `!matches!(side, Side::Ask)` and the level-drop test spelled as an early return on `count > 0`: table / drop-condition idioms",
     "feat-python-3": "the Python classes keep their own order count and refuse unknown ids before forwarding: forwarding becomes conditional on "
                      "wrapper-side bookkeeping which no rule proves equal to the core's order table (it also changes behaviour for invalid ids)",
@@ -622,3 +620,12 @@ mutant("c10-snapshot-read-before-loop", ["C10", "C11"], [
 refactor("c11-record-from-fresh-value", ["C10", "C11", "C19", "C08"], [
     (ENV, "        self.level_2_data = self.order_book.level_2_data();\n        self.level_2_data_records.append_record(&self.level_2_data);",
      "        let level_2_data = self.order_book.level_2_data();\n        self.level_2_data_records.append_record(&level_2_data);\n        self.level_2_data = level_2_data;")])
+
+# the all-asset query written as `order_books.each_ref().map(|book| ..)` (small-market-3's idiom): a slip inside it is still reported
+_SM3 = _os2.path.join(_os2.path.dirname(_os2.path.abspath(__file__)), "refactors", "small-market-3.diff")
+CASES.append(dict(kind="mutant", name="c14-array-map-wrong-side", props=["C14", "C02"], patch=_SM3, expect="views",
+                  edits=[(MKT, "ask_price_levels: book.ask_levels(),", "ask_price_levels: book.bid_levels(),")]))
+# the loader iterating by index (small-book-3's idiom) one position too far must still be reported
+_SB3 = _os2.path.join(_os2.path.dirname(_os2.path.abspath(__file__)), "refactors", "small-book-3.diff")
+CASES.append(dict(kind="mutant", name="c07-loader-index-past-end", props=["C07"], patch=_SB3, expect="load-abort-free",
+                  edits=[(OB, "for i in 0..state.orders.len() {", "for i in 0..state.orders.len() + 1 {")]))
